@@ -65,7 +65,8 @@ def inner_writers(facts):
                 base = b.base_of(t['args'][0])
                 path = [x[1] for x in base[1]]
                 adts = [x[0] for x in base[1]]
-                if 'bitar::clone_output::CloneOutput' in adts and 'inner' in path:
+                outf = (facts.fields_by_role('bitar::clone_output::CloneOutput').get('param') or [None])[0]
+                if any(x[0] == 'bitar::clone_output::CloneOutput' and x[1] == outf for x in base[1]):
                     out.append({'api': gq, 'in': b.q, 'at': t['loc']})
     return out
 
